@@ -572,6 +572,11 @@ def _small_cases(rng, T, cname):
                 else:
                     cls = "verify-rs-all"
                 out.append(case("%s-%s" % (cname, cls), "verify", cname, pk, m, sg, strict=True))
+        # r >= p far beyond the boundary (the challenge depends on r: some of these have e = 0, where a missing r < p check
+        # would surface as TypeError instead of AssertionError)
+        for r in list(range(p + 2, 5 * p)) + [2 ** 256 - 1, 2 ** 255]:
+            for sb in (parts["sig"][32:], r_b32(0)):
+                out.append(case("%s-verify-r-ge-p" % cname, "verify", cname, pk, m, r_b32(r) + sb, strict=True))
         for x in range(0, p + 2):
             out.append(case("%s-verify-pk-all" % cname, "verify", cname, r_b32(x), m, parts["sig"], strict=True))
         sg = parts["sig"]
